@@ -9,10 +9,10 @@ cd $WT || exit 2
 git checkout -q -- . ; rm -f $PKG/zz_seed_demo_test.go
 DEMO=$(ls $SD/*_test.go 2>/dev/null | head -1)
 cp "$DEMO" $PKG/zz_seed_demo_test.go
-echo "--- demo without patch"; go test -vet=off -count=1 -run "$RX" ./$PKG 2>&1 | tail -3 ; R0=${PIPESTATUS[0]}
+echo "--- demo without patch"; go test -vet=off -count=1 -timeout 180s -run "$RX" ./$PKG 2>&1 | tail -3 ; R0=${PIPESTATUS[0]}
 git apply $SD/patch.diff || { echo APPLY-FAILED; exit 2; }
 echo "--- build with patch"; go build ./... ; B=$?
-echo "--- demo with patch"; go test -vet=off -count=1 -run "$RX" ./$PKG 2>&1 | tail -6 ; R1=${PIPESTATUS[0]}
+echo "--- demo with patch"; go test -vet=off -count=1 -timeout 180s -run "$RX" ./$PKG 2>&1 | tail -6 ; R1=${PIPESTATUS[0]}
 rm -f $PKG/zz_seed_demo_test.go
 echo "--- stable tests with patch"
 go test -vet=off -count=1 . ./http/... ./internal/... ./lfsc/... 2>&1 | tail -6; S1=${PIPESTATUS[0]}
@@ -25,9 +25,16 @@ echo "CONFIRMED"
 # run our check against it
 cd /repo && git apply $WT/$SD/patch.diff || { echo APPLY-REPO-FAILED; exit 2; }
 cd /verif; RC=0; : > /tmp/seedrun-$ID.txt
+./run.sh check -property C01 -no-evidence > /dev/null 2>&1   # make sure the tool is built
+PIDS=""
 for P in $(python3 -c "import json;print(' '.join(c['property_id'] for c in json.load(open('/verif/MANIFEST.json'))['checks']))"); do
-  ./run.sh check -property $P -no-evidence >> /tmp/seedrun-$ID.txt 2>&1 || RC=1
+  ( bin/lfscheck check -property $P -no-evidence > /tmp/seedrun-$ID.$P.txt 2>&1; echo $? > /tmp/seedrun-$ID.$P.rc ) &
+  PIDS="$PIDS $!"
 done
+wait $PIDS
+for f in /tmp/seedrun-$ID.C*.txt; do cat $f >> /tmp/seedrun-$ID.txt; done
+for f in /tmp/seedrun-$ID.C*.rc; do [ "$(cat $f)" = "0" ] || RC=1; done
+rm -f /tmp/seedrun-$ID.C*.txt /tmp/seedrun-$ID.C*.rc
 git -C /repo checkout -q -- .
 grep -E "^VIOLATION C|^UNDECIDED" /tmp/seedrun-$ID.txt | head -5
 echo "CHECK exit=$RC"
